@@ -74,13 +74,39 @@ def query_noise(ix, driver, i):
         guarded(fn)
 
 
+class TextArgs(object):
+    """The same Traph, its public methods called with text (str) LRUs wherever the bytes are plain ASCII:
+    every public method encodes text arguments, so the answers must be the same."""
+
+    def __init__(self, t):
+        object.__setattr__(self, "_t", t)
+
+    def __getattr__(self, name):
+        v = getattr(self._t, name)
+        if not callable(v) or name.startswith("_"):
+            return v
+
+        def call(*a, **kw):
+            return v(*[impl._as_text(x) for x in a], **{k: impl._as_text(x) for k, x in kw.items()})
+        return call
+
+    def __setattr__(self, name, value):
+        setattr(self._t, name, value)
+
+
 def wrap(body):
     def hook(ix, driver, i, op, res):
         note_pool(ix, op)
         if op is None or op.get("op") not in ("CoopBegin", "CoopNext"):
             query_noise(ix, driver, i)
         del impl.WRITE_LOG[:]
-        q = body(ix, driver, i, op, res)
+        real = ix.t
+        if i % 3 == 2:          # every third step, the queries of the hook pass text instead of bytes
+            ix.t = TextArgs(real)
+        try:
+            q = body(ix, driver, i, op, res)
+        finally:
+            ix.t = real
         q["wrote"] = len(impl.WRITE_LOG)
         del impl.WRITE_LOG[:]
         return q
@@ -453,6 +479,12 @@ def readonly_calls(ix, driver, salt, limit=40):
             add("get_page_outdegree", lambda l=l, w=wgt: t.get_page_outdegree(l, w))
             add("get_page_degree", lambda l=l, w=wgt: t.get_page_degree(l, w))
     targets = wes + [unknown] + ([wrongp] if wrongp else [])
+    # the id omitted (None / 0 / False: "the prefixes are supposed to match the webentity id, we do not check"),
+    # with a first prefix that is not in the index, alone or followed by real ones; an empty prefix list
+    absent = [l for l in pool if l.count(b"|") >= 3][-1:] or [b"s:nowhere|h:x|h:y|"]
+    absent = [absent[0] + b"p:never-indexed|"]
+    targets += [(None, absent), (0, absent + (list(wes[0][1]) if wes else [])), (False, list(wes[-1][1]) if wes else absent),
+                (wes[0][0] if wes else 1, [])]
     for wid, ps in targets:
         add("get_webentity_pages", lambda w=wid, p=ps: t.get_webentity_pages(w, p))
         add("get_webentity_crawled_pages", lambda w=wid, p=ps: t.get_webentity_crawled_pages(w, p))
